@@ -28,6 +28,7 @@ set t5 to transform set match to match + '!' set seen to 'S' return match end
 set t6 to transform set x to 'Q' + x set matchNumber to 7 return x end
 set t7 to transform return seen + '|' + x + '|' + matchNumber end
 set t8 to transform return '' + startOffset + '-' + endOffset + '/' + totalMatches + ':' + lineNumber + ',' + columnNumber + '=' + value + '@' + filename end
+set t9 to transform set i to 0 loop if i >= matchLength then break end if i == 1 then return 'R' + i end set i to i + 1 end return 'E' + i end
 set pcap to pattern (any = x)
 set pcap2 to pattern ('a' = x) or (any = y)
 `
@@ -79,6 +80,12 @@ func c05Items() []withItem {
 		{"t5", func(m engine.Match, _ map[string]string, _ int) string { return m.Value + "!" }},
 		{"t6", func(_ engine.Match, v map[string]string, _ int) string { return "Q" + v["x"] }},
 		{"t7", func(m engine.Match, v map[string]string, _ int) string { return "|" + v["x"] + "|" + strconv.Itoa(m.MatchNumber) }},
+		{"t9", func(m engine.Match, _ map[string]string, _ int) string {
+			if len(m.Value) >= 2 {
+				return "R1" // the `return` inside the loop ends the transform
+			}
+			return "E" + strconv.Itoa(len(m.Value))
+		}},
 		{"t8", func(m engine.Match, _ map[string]string, total int) string {
 			return fmt.Sprintf("%d-%d/%d:%d,%d=%s@%s", m.Offset.Start, m.Offset.End, total, m.Line.Start, m.Column.Start, m.Value, m.Filename)
 		}},
@@ -96,7 +103,7 @@ func init() {
 	register(&Check{
 		ID:    "C05",
 		Level: "exploration",
-		Rule: "every `with` list of length 1..k over 21 items (2 string literals, captures x y, the 8 built-ins, an undefined name, 8 transforms reading and ASSIGNING match / matchNumber / captures / locals and reading every built-in) x 14 bodies (two with the captures declared inside `set .. to pattern` definitions, two capturing digits) with 0-2 captures whose values differ between matches x every text over {a,b,\\n} up to the length bound and over {0,7} up to length 3; " +
+		Rule: "every `with` list of length 1..k over 22 items (2 string literals, captures x y, the 8 built-ins, an undefined name, 9 transforms (one returning from inside a loop) reading and ASSIGNING match / matchNumber / captures / locals and reading every built-in) x 14 bodies (two with the captures declared inside `set .. to pattern` definitions, two capturing digits) with 0-2 captures whose values differ between matches x every text over {a,b,\\n} up to the length bound and over {0,7} up to length 3; " +
 			"expected replacement = concatenation of the items computed from the match record itself, and the matches must equal those of `find all` with the same body; non-trivial = distinct (list,body,text) triples with at least 2 matches",
 		Assume: []string{"the four transforms are fixed; the general evaluator is C11's subject", "Run(string) reports filename 'text'"},
 		Budget: map[string]int{"quick": 120, "thorough": 1200},
